@@ -7,6 +7,7 @@ mod c08;
 mod c10;
 mod c11;
 mod c12;
+mod c14;
 mod c15;
 mod c18;
 mod corpus;
@@ -49,6 +50,10 @@ fn main() {
         "c12" => {
             let scratch = args.get(5).cloned().unwrap_or_else(|| "/verif/.build/scratch".to_string());
             c12::run(&mut out, tier, seed, &scratch)
+        }
+        "c14" => {
+            let scratch = args.get(5).cloned().unwrap_or_else(|| "/verif/.build/scratch".to_string());
+            c14::run(&mut out, tier, seed, &scratch)
         }
         "c15" => {
             let scratch = args.get(5).cloned().unwrap_or_else(|| "/verif/.build/scratch".to_string());
